@@ -3,9 +3,11 @@
 (* configurations, the ghost variables of C08 (published maps, retention),    *)
 (* the scope flags of C06/C08, the properties as action formulas, and the     *)
 (* scenario emitters used with `tlc -simulate`.                               *)
-(*   Netmap_quick / Netmap_thorough     candidates, ticks, subscribers (C06, C07; C08 on short histories) *)
-(*   NetmapRing_quick / _thorough       the snapshot ring: consecutive ticks and resizes (C08)            *)
-(*   Netmap_sim / NetmapRing_sim        scenario generation                                               *)
+(*   Netmap_quick / Netmap_thorough          candidate methods: breadth of keys, states, signer sets (C07, C06)  *)
+(*   NetmapDeep_quick / NetmapDeep_thorough  candidate methods: depth with few signer sets (C07, C06)            *)
+(*   NetmapSubs_quick / NetmapSubs_thorough  ticks, subscribers, rejection, shared blocks, config (C06)          *)
+(*   NetmapRing_quick / NetmapRing_thorough  the snapshot ring: consecutive ticks and resizes (C08)              *)
+(*   Netmap_sim / NetmapRing_sim             scenario generation                                                 *)
 EXTENDS Netmap, Json
 
 VARIABLES pub, rt, okC08, okC06, n, nres, hist
